@@ -131,3 +131,14 @@ CHECKS["C17"] = {
     "units": [{"name": "c17", "pkg": "c17", "run": "^Test", "shards": 8}],
     "expect_checks": ["c17.shutdown"],
 }
+
+CHECKS["C10"] = {
+    "level": "fault_enumeration",
+    "technique": "fault injection + fuzz-style generation (rapid under testing/synctest): random and structured garbage before TLS, valid h2/http/1.1 transcripts mutated above TLS (after a real handshake) and at the TLS byte level, client disconnect or stall after drawn byte offsets, an error injected at the k-th Read/Write/Set*Deadline/Close of the accepted connection, a panic injected at each user callback (GetCertificate, GetConfigForClient, VerifyConnection, ConnState, header injector, handler); finite sub-spaces are enumerated; oracle = process alive, bystander connections and fresh control connections served, victim connection closed",
+    "rule": "case = one victim connection (kind, protocol, mutation list / offset / fault point / panic site) run next to an HTTP/1.1 and an HTTP/2 bystander. Non-trivial = the victim got past the TLS handshake, or the case is an I/O-fault or panic injection; distinct by hash of the script.",
+    "level_text": "Enumeration of all panic sites x protocols, all (operation, index<=14) I/O fault points and (thorough tier) every disconnect offset of the three reference sessions, plus generated byte-level mutations. A process death is reported as a violation with the script that was running.",
+    "level_note": _E2E_NOTE + " Crash-freedom is shown for executed inputs only; memory/CPU exhaustion is not judged.",
+    "assumptions": ["a panic that escapes to the Go runtime kills the test binary; run.py turns that into a VIOLATION with the tracked script", "ErrorLog writers are not in the panic-site list (not named by the statement)"],
+    "units": [{"name": "c10", "pkg": "c10", "run": "^Test", "shards": 8, "env": {"VERIF_TRACK_CURRENT": "1"}}],
+    "expect_checks": ["c10.robust", "c10.enumerate"],
+}
